@@ -213,7 +213,7 @@ def run(ctx):
         g, sf = min(items, key=lambda x: (len(x[0]), sum(len(t) for t in x[0])))
         violations.append({"signature": {"query": kind}, "what": f"query '{kind}' disagrees with its definition on {len(items)} inputs: {sf}",
                            "payload": {"graph": [list(t) for t in g], "detail": sf, "count": len(items)}})
-    if mism and not violations:
+    if mism:
         g, mm = mism[0]
         path = common.write_replay("C13", {"property": "C13", "kind": "correspondence-broken",
                                            "correspondence": "Scfg.Model.Queries vs numba_scfg queries",
